@@ -957,6 +957,57 @@ def run_same_named_functions(ctx, g):
                               f'({level}): {wrong} hold although the operator class differs', witness)
 
 
+def run_inherited_schemas(ctx):
+    """Schemas written with inheritance (a child re-using an attribute key of its parent, with another field or with the
+    very same one) against their flat twins - same class name, same ordered fields: one structure, so schema, table,
+    columns and statements must be equal AND interchangeable as mapping keys; against the schema lacking the re-declared
+    field nothing may be equal."""
+    import types
+
+    from forml.io import dsl
+    from forml.io.dsl import function
+
+    def flat(**fields):
+        return types.new_class('T', (dsl.Schema,), exec_body=lambda ns: ns.update(fields))  # ``class T(dsl.Schema)``
+
+    def child(parent, **fields):
+        return types.new_class('T', (parent,), exec_body=lambda ns: ns.update(fields))  # ``class T(Parent)``
+
+    def integer():
+        return dsl.Field(dsl.Integer())
+
+    def string(name=None):
+        return dsl.Field(dsl.String(), name=name)
+
+    def real():
+        return dsl.Field(dsl.Float())
+
+    cases = {
+        'override-kind': (child(flat(k=integer(), v=string()), v=real()), flat(k=integer(), v=real()), True),
+        'override-name': (child(flat(k=integer(), v=string()), v=string('w')), flat(k=integer(), v=string('w')), True),
+        'verbatim': (child(flat(k=integer(), v=string()), v=string()), flat(k=integer(), v=string()), True),
+        'grandchild': (child(child(flat(k=integer(), v=string()), v=real()), k=string()), flat(k=string(), v=real()), True),
+        'extended': (child(flat(k=integer()), v=string()), flat(k=integer(), v=string()), True),
+        'verbatim-vs-lacking': (child(flat(k=integer(), v=string()), v=string()), flat(k=integer()), False),
+        'override-vs-parent': (child(flat(k=integer(), v=string()), v=real()), flat(k=integer(), v=string()), False),
+    }
+    for label, (left, right, same) in cases.items():
+        levels = [('schema', lambda t: t.schema), ('table', lambda t: t), ('rebuilt-table', lambda t: dsl.Table(t.schema)),
+                  ('column', lambda t: t.k), ('statement', lambda t: t.select(t.k)), ('expression', lambda t: function.Count(t.k))]
+        for level, make in levels:
+            ctx.count('evaluations')
+            ctx.count('inherited_schema_pairs')
+            ctx.shape(('inherited-schema', label, level))
+            witness = {'inherited_schema': [label, level]}
+            seen = vector(make(left), make(right))
+            if same and seen != [True, True, True, True]:
+                ctx.violation(f'inherited-schema-twin-not-interchangeable-{level}', f'{label}: a schema re-using an inherited key and '
+                              f'its flat twin ({level} level) give (eq, hash, set, dict) = {seen}', witness)
+            elif not same and (seen[0] is not False or seen[2] is not False or seen[3] is not False):
+                ctx.violation(f'inherited-schema-different-confused-{level}', f'{label}: different schemas ({level} level) give '
+                              f'(eq, hash, set, dict) = {seen}', witness)
+
+
 def run(ctx):
     from forml.io import dsl
 
@@ -992,6 +1043,7 @@ def run(ctx):
         run_kinds(ctx, g, dsl)
         run_directed(ctx, g, sql, keep)
         run_same_named_functions(ctx, g)
+        run_inherited_schemas(ctx)
     check_stability(ctx, g, keep)
     run_cross(ctx, g, dsl, cross)
     ctx.note_max('objects_built_before_stability', ctx.counters.get('objects_built', 0))
@@ -1005,6 +1057,9 @@ def replay(ctx, witness):
     sql = Sql(g)
     if 'same_named_function' in witness:
         run_same_named_functions(ctx, g)
+        return
+    if 'inherited_schema' in witness:
+        run_inherited_schemas(ctx)
         return
     if 'kinds' in witness or 'fields' in witness:
         run_kinds(ctx, g, dsl)
